@@ -70,6 +70,16 @@ func posStream(args []string) int {
 	w.Stream(n, withCorpus, func(g GamePos) {
 		p := g.P
 		fen := p.StringFen()
+		// a position set up from a FEN is compared with the specification's reading of THAT text: when the engine
+		// prints other placement / side / castling / en-passant fields than it was given, the given text is what
+		// the specification parses (a set-up that silently drops a right or a square shows as a different move list)
+		if len(g.Moves) == 0 && g.Root != "" {
+			a, b := strings.Fields(g.Root), strings.Fields(fen)
+			if len(a) >= 4 && len(b) >= 4 && strings.Join(a[:4], " ") != strings.Join(b[:4], " ") {
+				fen = g.Root
+				rep.Stats["fen_set_up_differs_from_the_text_given"]++
+			}
+		}
 		rep.Cases++
 		if !seen[uint64(p.ZobristKey())] {
 			seen[uint64(p.ZobristKey())] = true
